@@ -364,11 +364,148 @@ pub fn canary_cmp(a: &EntryTree, b: &EntryTree, attr: SortingAttr) { let o = a.c
     return [VerusFile("c16_cmp", secs), VerusFile("c16_cmp_canary", csecs, expect_fail=True)]
 
 
+# --------------------------------------------------------------------------- util::sort::cmp_int for digit runs of EVERY length (Verus)
+CMPINT_SPEC = r"""use core::cmp::Ordering;
+pub open spec fn is_digit(c: char) -> bool { '0' <= c && c <= '9' }
+pub open spec fn digit(c: char) -> int { (c as u32) as int - 48 }
+pub open spec fn digits(s: Seq<char>) -> bool { forall |i: int| 0 <= i < s.len() ==> is_digit(#[trigger] s[i]) }
+pub open spec fn num(s: Seq<char>) -> int decreases s.len() { if s.len() == 0 { 0 } else { num(s.drop_last()) * 10 + digit(s.last()) } }
+pub open spec fn pow10(n: nat) -> int decreases n { if n == 0 { 1 } else { 10 * pow10((n - 1) as nat) } }
+pub open spec fn trim0(s: Seq<char>) -> Seq<char> decreases s.len() { if s.len() > 0 && s[0] == '0' { trim0(s.skip(1)) } else { s } }
+pub open spec fn lex_cmp(a: Seq<char>, b: Seq<char>) -> Ordering decreases a.len() {
+    if a.len() == 0 { if b.len() == 0 { Ordering::Equal } else { Ordering::Less } }
+    else if b.len() == 0 { Ordering::Greater }
+    else if a[0] < b[0] { Ordering::Less } else if a[0] > b[0] { Ordering::Greater }
+    else { lex_cmp(a.skip(1), b.skip(1)) }
+}
+pub open spec fn int_cmp(x: int, y: int) -> Ordering { if x < y { Ordering::Less } else if x == y { Ordering::Equal } else { Ordering::Greater } }
+
+pub proof fn lemma_pow10_pos(n: nat) ensures pow10(n) >= 1 decreases n { if n > 0 { lemma_pow10_pos((n - 1) as nat); } }
+pub proof fn lemma_pow10_mono(m: nat, n: nat) requires m <= n ensures pow10(m) <= pow10(n) decreases n {
+    if m < n { lemma_pow10_mono(m, (n - 1) as nat); lemma_pow10_pos((n - 1) as nat); }
+}
+pub proof fn lemma_num_bound(s: Seq<char>) requires digits(s) ensures 0 <= num(s) < pow10(s.len()) decreases s.len() {
+    if s.len() > 0 {
+        lemma_num_bound(s.drop_last());
+        assert(is_digit(s.last()));
+    }
+}
+pub proof fn lemma_num_front(s: Seq<char>) requires digits(s), s.len() > 0
+    ensures num(s) == digit(s[0]) * pow10((s.len() - 1) as nat) + num(s.skip(1)) decreases s.len() {
+    if s.len() == 1 {
+        assert(s.drop_last().len() == 0);
+        assert(s.skip(1).len() == 0);
+        assert(s.last() == s[0]);
+        assert(num(s) == num(s.drop_last()) * 10 + digit(s.last()));
+        assert(num(s.drop_last()) == 0);
+        assert(num(s.skip(1)) == 0);
+        assert(pow10(0) == 1);
+    } else {
+        let dl = s.drop_last();
+        lemma_num_front(dl);
+        assert(s.skip(1).drop_last() =~= dl.skip(1));
+        assert(s.skip(1).last() == s.last());
+        assert(dl[0] == s[0]);
+        let p = pow10((s.len() - 2) as nat);
+        assert(num(s) == num(dl) * 10 + digit(s.last()));
+        assert(num(s.skip(1)) == num(s.skip(1).drop_last()) * 10 + digit(s.skip(1).last()));
+        assert(num(dl) == digit(s[0]) * p + num(dl.skip(1)));
+        assert(pow10((s.len() - 1) as nat) == 10 * p);
+        assert((digit(s[0]) * p + num(dl.skip(1))) * 10 == digit(s[0]) * (10 * p) + num(dl.skip(1)) * 10) by (nonlinear_arith);
+    }
+}
+pub proof fn lemma_trim(s: Seq<char>) requires digits(s)
+    ensures digits(trim0(s)), num(trim0(s)) == num(s), trim0(s).len() <= s.len(), trim0(s).len() > 0 ==> trim0(s)[0] != '0' decreases s.len() {
+    if s.len() > 0 && s[0] == '0' {
+        lemma_trim(s.skip(1));
+        lemma_num_front(s);
+        assert(digit(s[0]) == 0);
+        assert(trim0(s) == trim0(s.skip(1)));
+        assert(0 * pow10((s.len() - 1) as nat) == 0);
+    }
+}
+pub proof fn lemma_lower(t: Seq<char>) requires digits(t), t.len() > 0, t[0] != '0' ensures num(t) >= pow10((t.len() - 1) as nat) {
+    lemma_num_front(t); lemma_num_bound(t.skip(1));
+    let p = pow10((t.len() - 1) as nat); lemma_pow10_pos((t.len() - 1) as nat);
+    assert(is_digit(t[0]));
+    assert(digit(t[0]) * p >= p) by (nonlinear_arith) requires digit(t[0]) >= 1, p >= 1;
+}
+pub proof fn lemma_lex(a: Seq<char>, b: Seq<char>) requires digits(a), digits(b), a.len() == b.len()
+    ensures lex_cmp(a, b) == int_cmp(num(a), num(b)) decreases a.len() {
+    if a.len() > 0 {
+        lemma_num_front(a); lemma_num_front(b);
+        lemma_num_bound(a.skip(1)); lemma_num_bound(b.skip(1));
+        let p = pow10((a.len() - 1) as nat);
+        assert(is_digit(a[0]) && is_digit(b[0]));
+        if a[0] < b[0] {
+            assert(digit(a[0]) * p + p <= digit(b[0]) * p) by (nonlinear_arith) requires digit(a[0]) + 1 <= digit(b[0]), p >= 0;
+        } else if a[0] > b[0] {
+            assert(digit(b[0]) * p + p <= digit(a[0]) * p) by (nonlinear_arith) requires digit(b[0]) + 1 <= digit(a[0]), p >= 0;
+        } else {
+            lemma_lex(a.skip(1), b.skip(1));
+        }
+    }
+}
+// digit runs compare by numeric value
+pub proof fn lemma_cmp_int(a: Seq<char>, b: Seq<char>)
+    requires digits(a), digits(b),
+    ensures ({ let ta = trim0(a); let tb = trim0(b);
+        int_cmp(num(a), num(b)) == (
+            if ta.len() == 0 && tb.len() == 0 { Ordering::Equal } else if ta.len() == 0 { Ordering::Less } else if tb.len() == 0 { Ordering::Greater }
+            else if ta.len() < tb.len() { Ordering::Less } else if ta.len() > tb.len() { Ordering::Greater } else { lex_cmp(ta, tb) }) })
+{
+    let ta = trim0(a); let tb = trim0(b);
+    lemma_trim(a); lemma_trim(b);
+    lemma_num_bound(ta); lemma_num_bound(tb);
+    if ta.len() > 0 { lemma_lower(ta); lemma_pow10_pos((ta.len() - 1) as nat); }
+    if tb.len() > 0 { lemma_lower(tb); lemma_pow10_pos((tb.len() - 1) as nat); }
+    if ta.len() > 0 && tb.len() > 0 {
+        if ta.len() < tb.len() { lemma_pow10_mono(ta.len(), (tb.len() - 1) as nat); }
+        else if ta.len() > tb.len() { lemma_pow10_mono(tb.len(), (ta.len() - 1) as nat); }
+        else { lemma_lex(ta, tb); }
+    }
+}
+
+"""
+
+CMPINT_STANDINS = r"""
+// stand-ins (ASSUMED): str::trim_start_matches('0'), <str as Ord>::cmp (bytewise = charwise lexicographic), byte length of an ASCII string
+#[verifier::external_body]
+pub fn trim_zeros<'a>(s: &'a str) -> (r: &'a str) ensures r@ == trim0(s@) { unimplemented!() }
+#[verifier::external_body]
+pub fn str_cmp(a: &str, b: &str) -> (r: Ordering) ensures r == lex_cmp(a@, b@) { unimplemented!() }
+pub axiom fn axiom_digit_str_len(s: &str) requires digits(s@) ensures s.len() == s@.len();
+
+"""
+
+
+def cmp_int_files(S: Sources):
+    """util::sort::cmp_int: two digit runs of ANY length compare as the numbers they denote (leading zeros included).
+    str::trim_start_matches('0'), <str as Ord>::cmp and the byte length of an ASCII string are ASSUMED (stand-ins / axiom);
+    the bounded Kani harnesses verif_c16_sort::runs_fixed_* check the same statement on the compiled code for 1-3 digits."""
+    so = S(SORT)
+    f = so.find_fn("cmp_int")
+    sec = code_fn(so, f, "util::sort::cmp_int", ret="r", pair=["verif_c16_sort::runs_fixed_1_1", "verif_c16_sort::runs_fixed_1_2"],
+                  subst=[(r"\b(\w+)\s*\.\s*trim_start_matches\(\s*'0'\s*\)", r"trim_zeros(\1)", 2),
+                         (r"\ba\s*\.\s*cmp\(\s*b\s*\)", "str_cmp(a, b)", 1)],
+                  inserts=[(r"a = trim_zeros \( a \) ;", "before", "proof { lemma_cmp_int(a@, b@); lemma_trim(a@); lemma_trim(b@); }", 1, "hint"),
+                           (r"b = trim_zeros \( b \) ;", "after", "proof { axiom_digit_str_len(a); axiom_digit_str_len(b); }", 1, "hint")],
+                  clauses="""
+        requires digits(a@), digits(b@),
+        // digit runs compare by numeric value
+        ensures r == int_cmp(num(a@), num(b@)),
+    """)
+    secs = [ghost("C16 digit-run spec and lemmas", CMPINT_SPEC, kind="lemma"), ghost("C16 assumed str specs", CMPINT_STANDINS, kind="trusted"), sec]
+    import copy
+    csecs = copy.deepcopy(secs) + [ghost("canaries", "pub fn canary_cmp_int(a: &str, b: &str) requires digits(a@), digits(b@) { let o = cmp_int(a, b); assert(false); }", kind="lemma")]
+    return [VerusFile("c16_cmp_int", secs), VerusFile("c16_cmp_int_canary", csecs, expect_fail=True)]
+
+
 def build(S: Sources) -> Unit:
     for f in (CONFIG, SORT):
         S(f)
     errs = []
-    vfiles = guarded(lambda: cmp_file(S), errs, [])
+    vfiles = guarded(lambda: cmp_file(S), errs, []) + guarded(lambda: cmp_int_files(S), errs, [])
     from units import cli_common
     vfiles = vfiles + guarded(lambda: cli_common.cfg_files(S, {"C16"}, "c16"), errs, [])
     from units import pipeline_common
